@@ -45,7 +45,7 @@ Theorem C17_list_exact : forall os lsub ref pat, ~ (ref = [] /\ pat = []) ->
   let out := list_cmd st (plain lsub ref pat) in
   NoDup (map e_name out) /\
   (forall d, In d (map e_name out) <-> spec_listed (abs st) lsub [ref ++ pat] d).
-Proof. intros os lsub ref pat H. exact (list_exact _ lsub ref pat (reachable_inv os) H). Qed.
+Proof. exact list_exact_reachable. Qed.
 Print Assumptions C17_list_exact.
 
 (* Every entry of every LIST / LSUB answer (any selection and return options, any number of
@@ -60,7 +60,7 @@ Theorem C17_children_attr : forall os q e, ~ is_probe q ->
     (In HasNoChildren (e_attrs e) <-> ~ has_inferiors (abs st) n) /\
     (In Noselect (e_attrs e) <-> i_placeholder i = true) /\
     (In Subscribed (e_attrs e) -> i_subscribed i = true).
-Proof. intros os q e H st. exact (list_attrs st q e (reachable_inv os) H). Qed.
+Proof. exact list_attrs_reachable. Qed.
 Print Assumptions C17_children_attr.
 
 (* RENAME o n that is answered OK (o not INBOX), after any history: everything that was at or
@@ -70,7 +70,7 @@ Theorem C17_rename_subtree : forall os o n st',
   let st := fst (run init os) in
   is_inbox o = false -> rename st o n = (st', OK) ->
   (forall s, abs st' (n ++ s) = abs st (o ++ s)) /\ (forall s, abs st' (o ++ s) = None).
-Proof. intros os o n st' st. exact (rename_subtree st o n st' (reachable_inv os)). Qed.
+Proof. exact rename_subtree_reachable. Qed.
 Print Assumptions C17_rename_subtree.
 
 (* DELETE of INBOX in any spelling is refused in every state, and after every history the inbox
@@ -78,7 +78,7 @@ Print Assumptions C17_rename_subtree.
 Theorem C17_inbox_undeletable :
   (forall st n, is_inbox n = true -> delete st n = (st, NO)) /\
   (forall os, exists r, find_row (fst (run init os)) inbox = Some r /\ r_nosel r = false).
-Proof. exact (conj inbox_never_deleted inbox_always_there). Qed.
+Proof. exact inbox_undeletable. Qed.
 Print Assumptions C17_inbox_undeletable.
 
 (* A command that is refused leaves the state equal, in every state. *)
@@ -94,7 +94,7 @@ Theorem C17_deleted_leaf_gone : forall os n0 st',
   (forall r, find_row st (canon n0) = Some r -> r_sub r = false) ->
   abs st' (canon n0) = None /\ select st' n0 = (st', NO) /\
   (forall q e, ~ is_probe q -> In e (list_cmd st' q) -> e_name e <> shown (canon n0)).
-Proof. intros os n0 st' st. exact (deleted_leaf_gone st n0 st' (reachable_inv os)). Qed.
+Proof. exact deleted_leaf_gone_reachable. Qed.
 Print Assumptions C17_deleted_leaf_gone.
 
 (* ---- non-vacuity: concrete histories exercising the hypotheses above *)
